@@ -27,10 +27,12 @@ KNOWN = {'sa-version-path-underestimated-symbol-count':
          'bits than the symbol holds and is silently cut; the count returned equals the defective estimate restated in the check'}
 CHUNK = 1
 
-FAMILIES = ('digits', 'alnum', 'latin', 'bytes', 'kanji', 'mixed', 'int', 'utf8', 'sjisbyte', 'hanzi')
+FAMILIES = ('digits', 'alnum', 'latin', 'bytes', 'kanji', 'mixed', 'int', 'utf8', 'sjisbyte', 'hanzi', 'hira8')
 FAM_MODE = {'digits': 'numeric', 'alnum': 'alphanumeric', 'latin': 'byte', 'bytes': 'byte', 'kanji': 'kanji', 'mixed': 'byte', 'int': 'numeric',
-            'utf8': 'byte', 'sjisbyte': 'byte', 'hanzi': 'hanzi'}
-FAM_KW = {'hanzi': {'mode': 'hanzi'}}
+            'utf8': 'byte', 'sjisbyte': 'byte', 'hanzi': 'hanzi', 'hira8': 'kanji'}
+# hira8: hiragana in UTF-8 (explicit encoding) - an even number of characters gives bytes that are all valid Shift JIS pairs, so the
+# mode is kanji although the bytes are UTF-8; n counts byte pairs (2 characters = 3 pairs)
+FAM_KW = {'hanzi': {'mode': 'hanzi'}, 'hira8': {'encoding': 'utf-8'}}
 
 
 def content_of(fam, n):
@@ -55,6 +57,8 @@ def content_of(fam, n):
         return ('\uff71Q\u70b9R=' * n)[:n]
     if fam == 'hanzi':
         return C.content_of('hanzi', n, 0)
+    if fam == 'hira8':
+        return '\u3042\u3044' * max(1, n // 3)
     raise ValueError(fam)
 
 
